@@ -55,6 +55,10 @@ async function read_text(rbql_csv, text, enc, dlm, pol, comment_prefix, has_head
         return {records: recs, header: header, warnings: warn_kinds(ws), fields: fields_nums(ws), error: null};
     } catch (e) {
         const n = (e && e.constructor && e.constructor.name) || 'Error';
+        // "... the same error class": by exception type AND as the public classifier (exception_to_error_info) reports it
+        const kind = rbql_csv.exception_to_error_info(e)[0];
+        if (n.includes('IOHandling') && kind !== 'IO handling')
+            return {records: null, header: null, warnings: null, fields: null, error: `exception_to_error_info says '${kind}' for a ${n}`};
         return {records: null, header: null, warnings: null, fields: null, error: n.includes('IOHandling') ? 'IO' : n};
     } finally {
         if (tmp !== null) { try { fs.unlinkSync(tmp); } catch (e) {} }
